@@ -197,7 +197,45 @@ def escapes_under_tag(crate):
     return tagchar, extra
 
 
+def tag_escape_guards(crate):
+    """extra conditions (beyond `c == tag` and being inside the loop) under which wrap_sep_string pushes the
+    backslash in front of the tag character"""
+    w = crate.fn("tools::wrap_sep_string")
+    if w is None:
+        return None
+    found = None
+    for bb, t, c in w.calls():
+        if last_seg(c) == "push" and "String" in c and len(w.call_args(bb)) == 2 and const_char(w.call_args(bb)[1]) == "\\":
+            facts = dom_facts(w, bb)
+            is_tag = any(a[0] == "call" and last_seg(a[1]) == "eq" and v is True and
+                         any(s_[0] == "call" and last_seg(s_[1]) == "to_string" for s_ in mir.subexprs(a)) for a, v in facts)
+            if not is_tag:
+                continue
+            extra = []
+            for a, v in facts:
+                a2 = strip_sites(a)
+                if a2[0] == "discr":
+                    continue
+                if a2[0] == "call" and last_seg(a2[1]) == "eq" and any(
+                        s_[0] == "call" and last_seg(s_[1]) == "to_string" for s_ in mir.subexprs(a2)):
+                    continue
+                extra.append("%s=%s" % (render(a2)[:50], v))
+            found = (bb, extra)
+    return found
+
+
 def dq_roundtrip_rule(ctx, crate):
+    g = tag_escape_guards(crate)
+    if g is not None:
+        w = crate.fn("tools::wrap_sep_string")
+        ctx.ob("R16-3", w.path, "the tag character is escaped wherever it occurs in the text (no further condition)", not g[1],
+               key="R16-3|%s|tag-escape-narrowed" % w.path, where=w.loc(g[0]), crate=crate.kind,
+               detail=None if not g[1] else "extra guard(s) %s: some occurrence of the quote character is written bare, the "
+               "re-rendered string closes early and what follows (`;`, `&&`, `|`, `>`) turns from data into operators" %
+               "; ".join(g[1]))
+    else:
+        ctx.require(False, "R16-3", "R16-3|tools::wrap_sep_string|tag-escape", "no backslash push under `c == tag` found in "
+                    "wrap_sep_string")
     from .c01 import TokenizerModel
     b = crate.fn("parsers::parser_line::parse_line")
     if not ctx.require(b is not None, "R16-3", "R16-3|anchor", "parsers::parser_line::parse_line not found"):
